@@ -501,10 +501,9 @@ fn run(case: &Case, out: &mut Out) {
         .filter(|o| o.name == "probe")
         .map(|o| (o.args[0].b().to_vec(), o.args[1].b().to_vec(), o.args[2].b().to_vec()))
         .collect();
-    // Every violation seen after a /regex/-segment hostname went into the tree is reported under the one
-    // class `regex-host` (known finding: that feature is history dependent).
+    // violations are tagged with whether a /regex/-segment hostname went into the tree before
     let regex_seen = std::cell::Cell::new(false);
-    let cls = |c: &'static str| -> &'static str { if regex_seen.get() { "regex-host" } else { c } };
+    let cls = |c: &'static str| -> &'static str { c };
     let tagf = || if regex_seen.get() { "regexhost" } else { "plain" };
     let mut router = Router::new();
     let mut trie: TrieNode<i64> = TrieNode::root();
